@@ -14,6 +14,8 @@ platform functions (Model/Text4, Text6) and the model of `netaddr/fbsocket.py` (
 Helper lemmas live in Lemmas/C01L*.lean.
 -/
 import NetaddrVerif.Lemmas.C01LText6
+import NetaddrVerif.Lemmas.C01LStrict
+import NetaddrVerif.Lemmas.C03LInt
 namespace NV.C01
 open NV NV.Text4 NV.AddrParse NV.C01L
 
@@ -159,5 +161,108 @@ example : (match ipAddress .platform "1.2.3.4.5".toList none 0 with | .error .ad
 theorem invalid_version_refused (be : Backend) (s : List Char) (ver fl : Nat) (h : ver ≠ 4 ∧ ver ≠ 6) :
     ipAddress be s (some ver) fl = .error .value := by
   simp [ipAddress, h]
+
+/-- **Strict IPv4 = the standard grammar.**  In INET_PTON mode (either back end) the accepted
+    strings are exactly the canonical dotted quads — four decimal octets 0..255 without leading
+    zeros, i.e. exactly the strings `int_to_str` prints — each with its standard value. -/
+theorem strict4_iff (be : Backend) (s : List Char) (v : Nat) :
+    inetPton4 be s = some v ↔ v < 2 ^ 32 ∧ s = ntoa v := by
+  cases be
+  · exact pton4_iff s v
+  · show FbSocket.pton4 s = some v ↔ _
+    rw [fb_pton4_eq]; exact pton4_iff s v
+
+example : inetPton4 .fallback "192.0.2.01".toList = none := by decide
+
+/-- a non-empty string of ASCII decimal digits -/
+def IsDigits (t : List Char) : Prop := t ≠ [] ∧ ∀ c ∈ t, isDec c = true
+
+theorem decCh_of_isDec (c : Char) (h : isDec c = true) : C03L.DecCh c := by
+  obtain ⟨d, hd, rfl⟩ := isDec_digitChar c h
+  exact C03L.decCh_digitChar d hd
+
+/-- **ZEROFILL.**  Four dot-separated strings of decimal digits (any zero padding) whose values
+    `n0..n3` are at most 255 are read, with the ZEROFILL flag (alone or with INET_PTON), as the
+    address with those octets — version `None` or `4`, both back ends. -/
+theorem zerofill (be : Backend) (t0 t1 t2 t3 : List Char) (n0 n1 n2 n3 : Nat)
+    (h0 : IsDigits t0) (h1 : IsDigits t1) (h2 : IsDigits t2) (h3 : IsDigits t3)
+    (e0 : Nat.ofDigitChars 10 t0 0 = n0) (e1 : Nat.ofDigitChars 10 t1 0 = n1)
+    (e2 : Nat.ofDigitChars 10 t2 0 = n2) (e3 : Nat.ofDigitChars 10 t3 0 = n3)
+    (b0 : n0 ≤ 255) (b1 : n1 ≤ 255) (b2 : n2 ≤ 255) (b3 : n3 ≤ 255)
+    (ver : Option Nat) (hver : ver = none ∨ ver = some 4) (fl : Nat) (hfl : fl = 2 ∨ fl = 3) :
+    ipAddress be (t0 ++ '.' :: (t1 ++ '.' :: (t2 ++ '.' :: t3))) ver fl =
+      .ok ⟨4, n0 * 16777216 + n1 * 65536 + n2 * 256 + n3⟩ := by
+  have dc : ∀ t, IsDigits t → ∀ c ∈ t, C03L.DecCh c := fun t ht c hc => decCh_of_isDec c (ht.2 c hc)
+  have nodot : ∀ t, IsDigits t → '.' ∉ t := fun t ht h => (dc t ht _ h).2.2.2.2.2.2.2.1 rfl
+  have noslash : ∀ t, IsDigits t → '/' ∉ t := fun t ht h => (dc t ht _ h).2.2.2.2.2.2.1 rfl
+  have hv : n0 * 16777216 + n1 * 65536 + n2 * 256 + n3 < 2 ^ 32 := by omega
+  generalize hvdef : n0 * 16777216 + n1 * 65536 + n2 * 256 + n3 = v at hv ⊢
+  have hjoin : t0 ++ '.' :: (t1 ++ '.' :: (t2 ++ '.' :: t3)) = ['.'].intercalate [t0, t1, t2, t3] := by
+    simp [List.intercalate]
+  have hsplit : (t0 ++ '.' :: (t1 ++ '.' :: (t2 ++ '.' :: t3))).splitOn '.' = [t0, t1, t2, t3] := by
+    rw [hjoin]
+    apply List.splitOn_intercalate
+    · intro l hl
+      simp only [List.mem_cons, List.not_mem_nil, or_false] at hl
+      rcases hl with e | e | e | e <;> subst e
+      · exact nodot _ h0
+      · exact nodot _ h1
+      · exact nodot _ h2
+      · exact nodot _ h3
+    · simp
+  have hnt : ntoa v = ['.'].intercalate [dec n0, dec n1, dec n2, dec n3] := by
+    rw [ntoa_eq, ← hvdef]
+    have q0 : (n0 * 16777216 + n1 * 65536 + n2 * 256 + n3) / 16777216 = n0 := by omega
+    have q1 : (n0 * 16777216 + n1 * 65536 + n2 * 256 + n3) / 65536 % 256 = n1 := by omega
+    have q2 : (n0 * 16777216 + n1 * 65536 + n2 * 256 + n3) / 256 % 256 = n2 := by omega
+    have q3 : (n0 * 16777216 + n1 * 65536 + n2 * 256 + n3) % 256 = n3 := by omega
+    rw [q0, q1, q2, q3]
+  have hz : AddrParse.zerofill (t0 ++ '.' :: (t1 ++ '.' :: (t2 ++ '.' :: t3))) = some (ntoa v) := by
+    unfold AddrParse.zerofill
+    rw [hsplit, hnt]
+    simp only [List.mapM_cons, List.mapM_nil, C03L.pyInt_digits _ (dc _ h0) h0.1, C03L.pyInt_digits _ (dc _ h1) h1.1,
+      C03L.pyInt_digits _ (dc _ h2) h2.1, C03L.pyInt_digits _ (dc _ h3) h3.1, e0, e1, e2, e3,
+      Option.map_some, showInt_nat, Option.bind_eq_bind, Option.bind_some, Option.pure_def]
+  have hs4 : strToInt4 be (t0 ++ '.' :: (t1 ++ '.' :: (t2 ++ '.' :: t3))) fl = .ok v := by
+    have hzf : hasFlag fl ZEROFILL = true := by rcases hfl with e | e <;> subst e <;> decide
+    have hr : (if hasFlag fl INET_PTON = true then inetPton4 be (ntoa v) else aton (ntoa v)) = some v := by
+      split
+      · exact inetPton4_ntoa be _ hv
+      · exact aton_ntoa _ hv
+    unfold strToInt4
+    simp only [hzf, if_true, hz, hr]
+  have hns : '/' ∉ t0 ++ '.' :: (t1 ++ '.' :: (t2 ++ '.' :: t3)) := by
+    simp only [List.mem_append, List.mem_cons, not_or]
+    exact ⟨noslash _ h0, by decide, noslash _ h1, by decide, noslash _ h2, by decide, noslash _ h3⟩
+  rcases hver with h | h <;> subst h <;> simp [ipAddress, hns, hs4, strToInt]
+
+example : IsDigits "010".toList ∧ Nat.ofDigitChars 10 "010".toList 0 = 10 := ⟨⟨by decide, by decide⟩, by decide⟩
+
+/-- PARTIAL.  Full statement aimed at (DESIGN.md C01, `strict6_iff`):
+    `inetPton6 be s = some v ↔ Rfc4291 s v`, where `Rfc4291` is an independent decidable grammar
+    predicate (1-4 hex digits per group, at most one "::" standing for ≥ 1 group, optional strict
+    dotted quad in the last 32 bits, eight groups' worth).
+    Proved here: (a) soundness direction on everything the printers emit — each of the three
+    dialect texts of every 128-bit value is accepted with that value by both back ends;
+    (b) the fallback reader equals the platform model on ALL strings (`fallback_eq_platform_parse`).
+    Missing: the independent grammar predicate and the equivalence of the split-style model with
+    it (the split-style model is itself close to a grammar; the harness oracle compares both the
+    real code and the platform with an independently written RFC 4291 recogniser on every run). -/
+theorem strict6_iff_partial (be : Backend) (d : Dialect) (v : Nat) (hv : v < 2 ^ 128) :
+    inetPton6 be (intToStr6 be d v) = some v ∧ inetPton6 .fallback (intToStr6 be d v) = inetPton6 .platform (intToStr6 be d v) :=
+  ⟨text6_parse be d v hv, fb_pton6_eq _⟩
+
+/-- PARTIAL.  Full statement aimed at (DESIGN.md C01, `aton_shorthand`): for every BSD
+    shorthand — 1 to 4 parts, each a C literal in decimal / octal (leading 0) / hex (0x), non-last
+    parts ≤ 255, the last part filling the remaining bytes — `aton s = some (combine parts)`, and
+    range rejection (`1.2.3.256`, `1.2.65536`, `4294967296`).
+    Proved here: the four-part decimal case on every canonical dotted quad (what `int_to_str`
+    prints), and that no string containing ':' after hex digits is accepted (`C01L.aton_colon`).
+    Missing: the 1-3 part, octal and hex cases as theorems; they are tied to glibc by the
+    platform op `aton` (≈ 1.4 k structured strings per quick run, 0 mismatches) and the oracle's
+    independent `ref_aton`. -/
+theorem aton_shorthand_partial (v : Nat) (hv : v < 2 ^ 32) : Text4.aton (ntoa v) = some v := aton_ntoa v hv
+
+example : Text4.aton "0x7f.1".toList = some 0x7f000001 := by decide
 
 end NV.C01
